@@ -7,7 +7,7 @@ from ..core import AnalysisError, norm, walk_no_nested, flat
 
 META = {
     'design_ref': 'DESIGN.md §5 C17',
-    'technique': "abstract interpretation on symbolic strings with automatic case refinement: decode(encode(lines)) on lists of symbolic lines of the property's domain, License converters, the two list converters on symbolic items (accepted items must read back, refused ones raise the format error); regular-language inclusion between the writer-side validator and str.split(); property accessors and document construction/dump/insertion interpreted on stubs; line-primitive rule for the multiline codec; who-may-call rule for the raw store of the wrapped paragraphs; validating constructors interpreted on paragraphs the creators can write; the constructor of the underlying mapping adopts only its _parsed argument as backing store; the strict reader interpreted on a paragraph whose pattern is no legal glob; frame rule over the codec functions and converters (no memoising decorator, no shared result object)",
+    'technique': "abstract interpretation on symbolic strings with automatic case refinement: decode(encode(lines)) on lists of symbolic lines of the property's domain, License converters, the two list converters on symbolic items (accepted items must read back, refused ones raise the format error); regular-language inclusion between the writer-side validator and str.split(); property accessors and document construction/dump/insertion interpreted on stubs; line-primitive rule for the multiline codec; who-may-call rule for the raw store of the wrapped paragraphs; validating constructors interpreted on paragraphs the creators can write; the constructor of the underlying mapping adopts only its _parsed argument as backing store; the strict reader interpreted on a paragraph whose pattern is no legal glob; frame rule over the codec functions and converters (no memoising decorator, no shared result object); the two list converters interpreted on lists of 0 to 12 (thorough: 40) items and on hand-written field texts (CPython regex engine on decided texts) -- the symbolic reading is a second opinion behind it; no regex flag at the position of maxsplit / count",
     'level_text': 'Static decision: for every line of the stated domain the decoder applied to the encoder\'s output returns the line '
                   '(first line and continuation lines separately), the decoder rejects a continuation without the prefix with the format '
                   'error; a value accepted by the space-separated writer is never split by the reader; every restricted field uses the '
